@@ -85,7 +85,7 @@ def run(ctx, k1_clean: bool):
             problems = None
             for attempt in range(3):
                 r = loop.run_until_complete(I.real_case(variant, cfg, QUERY, OPNAME, fx[vname][0], frames,
-                                                       len(exp["sent"]), adapter))
+                                                       len(exp["sent"]), adapter, timeout=1.0))
                 info["connections"] += 1
                 problems = []
                 fin = r["fin"] if isinstance(r["fin"], str) else ([r["fin"][0]] + (r["fin"][1:] if r["fin"][0] == "multi" else []))
@@ -121,6 +121,9 @@ def run(ctx, k1_clean: bool):
                 info["retries"] += 1
             run.dist("real_server", "len%d" % len(frames))
             run.dist("real_server_outcome", exp["fin"][0] if isinstance(exp["fin"], list) else exp["fin"])
+            if problems and info["mismatches"] >= 5:
+                info["aborted"] = "sample stopped after 6 mismatching cases"
+                break
             if problems:
                 info["mismatches"] += 1
                 if info["mismatches"] <= 3:
